@@ -2034,11 +2034,6 @@ impl<'de, 'e> de::Deserializer<'de> for YamlDeserializer<'de, 'e> {
             cfg: Cfg,
             have_key: bool,
 
-            // Persist a best-effort “current location” across `next_key_seed` returning to Serde.
-            // This allows Serde-produced structural/type errors (e.g. `unknown_field`) to carry
-            // a useful span even though they are raised outside of this deserializer’s call stack.
-            fallback_guard: Option<MissingFieldLocationGuard>,
-
             #[cfg(any(feature = "garde", feature = "validator"))]
             garde: Option<&'e mut PathRecorder>,
             #[cfg(any(feature = "garde", feature = "validator"))]
@@ -2253,12 +2248,9 @@ impl<'de, 'e> de::Deserializer<'de> for YamlDeserializer<'de, 'e> {
                         // Serde can raise `unknown_field` (and similar structural errors) during key
                         // deserialization itself; if we set the guard only after deserialization,
                         // those errors will incorrectly fall back to the container start.
-                        match &mut self.fallback_guard {
-                            Some(guard) => guard.replace_location(location),
-                            None => {
-                                self.fallback_guard = Some(MissingFieldLocationGuard::new(location))
-                            }
-                        }
+                        // The cell lives across `next_key_seed` returning to Serde and is restored
+                        // by the guard `deserialize_map` holds around the whole mapping.
+                        crate::de_error::set_missing_field_fallback(location);
 
                         let key_value = self.deserialize_recorded_key(key_seed, events, kemn)?;
                         self.have_key = true;
@@ -2393,13 +2385,7 @@ impl<'de, 'e> de::Deserializer<'de> for YamlDeserializer<'de, 'e> {
                                 // Same reasoning as the buffered path above: set key-span fallback
                                 // before key deserialization so errors during key parsing are
                                 // attributed to this key.
-                                match &mut self.fallback_guard {
-                                    Some(guard) => guard.replace_location(location),
-                                    None => {
-                                        self.fallback_guard =
-                                            Some(MissingFieldLocationGuard::new(location))
-                                    }
-                                }
+                                crate::de_error::set_missing_field_fallback(location);
 
                                 let key_value =
                                     self.deserialize_recorded_key(key_seed, events, kemn_direct)?;
@@ -2550,8 +2536,6 @@ impl<'de, 'e> de::Deserializer<'de> for YamlDeserializer<'de, 'e> {
             ev: self.ev,
             cfg: self.cfg,
             have_key: false,
-
-            fallback_guard: None,
 
             #[cfg(any(feature = "garde", feature = "validator"))]
             garde,
